@@ -122,7 +122,7 @@ def gen_obs(R, world, n_max, allow_zero_rate_bins):
     if R.random() < 0.04:
         # one very crowded bin (hundreds of events): the log-factorial term for large counts
         i, k = R.choice(pos)
-        for j in range(R.randint(171, 230)):
+        for j in range(R.choice((R.randint(171, 230), R.randint(171, 230), 255, 256, 257, 300, 512))):
             ev, _, _ = gen.gen_event(R, region, mags, cell=i, mbin=k, eid='o%d' % j, start_ms=world['start_ms'],
                                      end_ms=world['end_ms'])
             evs.append(ev)
@@ -277,6 +277,9 @@ def generate(R, tier, focus):
         test = R.choice(pool)
         oi = R.randrange(len(obs))
         nsim = R.randint(1, 12) if not thorough else R.choice((1, 5, 25, 100))
+        if R.random() < 0.003 and test != 'L' and test not in CAT_TESTS:
+            # rarely a long test distribution, just past plausible block sizes of a batched implementation
+            nsim = R.choice((101, 250, 257, 1025, 4097, 8193)) if test in POISSON_TESTS else R.choice((101, 250, 257, 1025))
         op = {'op': 'TEST', 'test': test, 'obs': oi, 'seed': R.choice(seeds), 'nsim': nsim, 'fc': which,
               'mode': 'rng', 'overrides': {}, 'p_overrides': {},
               'seed_type': R.choice(('int', 'int', 'int', 'int64', 'uint32')), 'verbose': R.random() < 0.2}
@@ -423,7 +426,16 @@ def predict_poisson(test, rates2d, n_obs, nsim, calls, injected, ctx):
     icdf = models.InverseCDF(flat)
     n_fore = float(numpy.sum(numpy.array(rates2d, dtype=float)))
     out = []
-    pos = 0
+    # The recorded draws are read as two streams - Poisson counts and uniforms - in the order they were drawn: how an
+    # implementation batches its calls (one rand(n) per catalog, one rand(nsim, n) for all) is not part of the property.
+    U_KINDS = ('rand', 'uniform', 'random_sample')
+    p_stream = [(c[1][0], int(v)) for c in calls if c[0] == 'poisson' for v in numpy.asarray(c[2]).ravel().tolist()]
+    u_stream = [u for c in calls if c[0] in U_KINDS for u in numpy.asarray(c[2]).ravel().tolist()]
+    others = [c[0] for c in calls if c[0] != 'poisson' and c[0] not in U_KINDS]
+    if injected is None and others:
+        raise StreamMismatch('%s:extra-rng-calls' % test, {'kinds': sorted(set(others))})
+    pp = 0
+    up = 0
     for s in range(nsim):
         if injected is not None:
             draws = injected[s]
@@ -431,23 +443,16 @@ def predict_poisson(test, rates2d, n_obs, nsim, calls, injected, ctx):
                 raise StreamMismatch('inject-with-L')
         else:
             if test == 'L':
-                if pos >= len(calls) or calls[pos][0] != 'poisson':
+                if pp >= len(p_stream):
                     raise StreamMismatch('L:no-poisson-draw', {'sim': s})
-                lam = calls[pos][1][0]
+                lam, n_ev = p_stream[pp]
+                pp += 1
                 if not models.close(lam, n_fore, 1e-9, 0):
                     raise StreamMismatch('L:poisson-mean-not-forecast-total', {'lam': lam, 'n_fore': n_fore})
-                n_ev = int(calls[pos][2])
-                pos += 1
             else:
                 n_ev = n_obs
-            if n_ev == 0 and (pos >= len(calls) or calls[pos][0] not in ('rand', 'uniform', 'random_sample')
-                              or numpy.size(calls[pos][2]) != 0):
-                draws = []          # nothing to draw: an implementation need not call the generator at all
-            else:
-                if pos >= len(calls) or calls[pos][0] not in ('rand', 'uniform', 'random_sample'):
-                    raise StreamMismatch('%s:no-uniform-draws' % test, {'sim': s})
-                draws = numpy.asarray(calls[pos][2]).ravel().tolist()
-                pos += 1
+            draws = u_stream[up:up + n_ev]
+            up += n_ev
             if len(draws) != n_ev:
                 raise StreamMismatch('%s:wrong-number-of-events' % test, {'sim': s, 'drawn': len(draws), 'want': n_ev})
         base = [0] * len(flat)
@@ -470,8 +475,10 @@ def predict_poisson(test, rates2d, n_obs, nsim, calls, injected, ctx):
                 c[b] += 1
             vals.add(stat_of(test, rates2d, flat, c, n_obs))
         out.append(vals)
-    if injected is None and pos != len(calls):
-        raise StreamMismatch('%s:extra-rng-calls' % test, {'used': pos, 'recorded': len(calls)})
+    if injected is None and (up != len(u_stream) or pp != len(p_stream)):
+        raise StreamMismatch('%s:%s' % (test, 'wrong-number-of-events' if up != len(u_stream) else 'extra-rng-calls'),
+                             {'uniforms_used': up, 'uniforms_drawn': len(u_stream), 'poisson_used': pp,
+                              'poisson_drawn': len(p_stream)})
     return out
 
 
